@@ -35,13 +35,13 @@ class C10(c01.C01):
                 continue
             got, problems = (json_reader.read if fmt == "json" else xml_reader.read)(text)
             if problems:
-                out.violation("%s-structural-rule" % fmt, _kind(problems[0]),
+                out.violation("%s-structural-rule" % fmt, _kind(problems[0]) + observe.input_class(doc),
                               {"problems": problems[:5], "where": where, "options": o, "text": text[:2500]}, hist, extra)
                 continue
             if got == want:
                 out.outcomes["%s-agree" % fmt] += 1
             else:
-                out.violation("%s-independent-reader-differs" % fmt, ",".join(observe.classify_diff(want, got)),
+                out.violation("%s-independent-reader-differs" % fmt, ",".join(observe.classify_diff(want, got)) + observe.input_class(doc),
                               {"diff": observe.diff_obs(want, got), "where": where, "options": o, "text": text[:2500]},
                               hist, extra)
 
